@@ -44,6 +44,8 @@ REG.spec('tmgr/scheduler/base.py:TMGRSchedulingComponent._assign_pilot',
     params   = dict(task=TaskC, pilot=PilotC),
     self     = dict(_tasks=TasksM),
     effects  = _sandbox_effects,
+    # every call site passes an unbound task or the pilot the task names
+    requires = ['not task.pilot or task.pilot == pilot.uid'],
     modifies = ['task', 'self._tasks'],
     raises   = {},
     ensures  = [
@@ -75,6 +77,9 @@ def _advance(ex, node, st):
         if k.arg == 'state': state = ex.ev(k.value, st)
     log = ex.get_var(st, 'fwd_log')
     lty = log.ty
+    if isinstance(things.ty, C.TOpt):
+        ex.fail(st, things.ty.is_none(things.term), 'TypeError')
+        things = Val(things.ty.elem, things.ty.val(things.term))
     if isinstance(things.ty, TList):
         # a bulk: the log is extended by one event per element
         n   = things.ty.len(things.term)
@@ -116,7 +121,7 @@ REG.spec('tmgr/scheduler/round_robin.py:RoundRobin._schedule_tasks',
     calls    = {'self._assign_pilot': 'tmgr/scheduler/base.py:TMGRSchedulingComponent._assign_pilot'},
     effects  = {'self.advance': _advance},
     requires = ['rr_inv(self._pilots, self._pids)', 'self._idx >= 0',
-                'forall(lambda t: implies(0 <= t < len(tasks), tasks[t].pilot is None))'],
+                'forall(lambda t: implies(0 <= t < len(tasks), not tasks[t].pilot))'],
     modifies = ['self._idx', 'self._wait_pool', 'self._tasks', 'tasks', 'fwd_log'],
     raises   = {},
     ensures  = [
@@ -134,6 +139,8 @@ REG.spec('tmgr/scheduler/round_robin.py:RoundRobin._schedule_tasks',
        'implies(len(self._pids) > 0, forall(lambda t: implies(0 <= t < len(tasks) - 1 and val(tasks[t].pilot) != self._pids[len(self._pids) - 1], '
        'exists(lambda i: 0 <= i < len(self._pids) - 1 and self._pids[i] == val(tasks[t].pilot) and self._pids[i + 1] == val(tasks[t + 1].pilot)))))'),
       ('history-kept', 'forall(lambda k: implies(0 <= k < len(old(fwd_log)), fwd_log[k] == old(fwd_log)[k]))'),
+      ('same-batch', 'len(tasks) == len(old(tasks)) and implies(len(self._pids) == 0, tasks == old(tasks))'),
+      ('wait-pool-untouched-when-pilots-exist', 'implies(len(self._pids) > 0, self._wait_pool == old(self._wait_pool))'),
     ],
     loops = {
       '1': ['len(tasks) == len(old(tasks))', 'self._idx >= 0', 'len(self._pids) > 0',
@@ -150,3 +157,241 @@ REG.spec('tmgr/scheduler/round_robin.py:RoundRobin._schedule_tasks',
     },
     opts   = dict(merge='scalars'),
     serves = ['C12'])
+
+
+# ------------------------------------------------------------------------------
+# TMGRSchedulingComponent._update_pilot_states
+#
+PilotL = T.List(PilotC)
+REG.define('pentry_ok(pilots)',
+    'forall(lambda p: implies(indom(pilots, p), is_pstate(at(pilots, p).state)), Str)')
+
+
+def _update_pilots_hook(ex, node, st):
+    for a in node.args: ex.ev(a, st)
+    return C.NONE
+_update_pilots_hook.mutates = ()
+
+REG.spec('tmgr/scheduler/base.py:TMGRSchedulingComponent._update_pilot_states',
+    params   = dict(pilots=PilotL),
+    self     = dict(_pilots=PilotsM),
+    locals   = dict(to_update=T.List(T.Str)),
+    calls    = {'rps._pilot_state_progress': 'states.py:_pilot_state_progress'},
+    effects  = {'self.update_pilots': _update_pilots_hook},
+    requires = ['pentry_ok(self._pilots)',
+                'forall(lambda i: implies(0 <= i < len(pilots), is_pstate(pilots[i].state)))'],
+    modifies = ['self._pilots'],
+    raises   = {'ValueError': 'True'},
+    raises_weak = ['ValueError'],
+    frame_on_raise = False,
+    ensures  = [
+      ('states-known', 'pentry_ok(self._pilots)'),
+      ('known-pilots-stay-known', 'forall(lambda p: implies(indom(old(self._pilots), p), indom(self._pilots, p)), Str)'),
+      ('roles-and-bindings-untouched',
+       'forall(lambda p: implies(indom(old(self._pilots), p), at(self._pilots, p).role == at(old(self._pilots), p).role and '
+       'at(self._pilots, p).pilot == at(old(self._pilots), p).pilot), Str)'),
+      ('new-entries-have-no-role',
+       'forall(lambda p: implies(indom(self._pilots, p) and not indom(old(self._pilots), p), at(self._pilots, p).role is None and at(self._pilots, p).pilot is None), Str)'),
+      ('pilot-states-never-backward',
+       'forall(lambda p: implies(indom(old(self._pilots), p), pv(at(self._pilots, p).state) >= pv(at(old(self._pilots), p).state)), Str)'),
+    ],
+    loops = {'1': ['pentry_ok(self._pilots)',
+                   'forall(lambda p: implies(indom(old(self._pilots), p), indom(self._pilots, p)), Str)',
+                   'forall(lambda p: implies(indom(old(self._pilots), p), at(self._pilots, p).role == at(old(self._pilots), p).role and '
+                   'at(self._pilots, p).pilot == at(old(self._pilots), p).pilot), Str)',
+                   'forall(lambda p: implies(indom(self._pilots, p) and not indom(old(self._pilots), p), at(self._pilots, p).role is None and at(self._pilots, p).pilot is None), Str)',
+                   'forall(lambda p: implies(indom(old(self._pilots), p), pv(at(self._pilots, p).state) >= pv(at(old(self._pilots), p).state)), Str)']},
+    opts   = dict(merge='scalars'),
+    serves = ['C12', 'C14'])
+
+
+# ------------------------------------------------------------------------------
+# RoundRobin: pilot bookkeeping
+#
+_rr_self = dict(_pids=T.List(T.Str), _idx=T.Int, _pilots=PilotsM, _wait_pool=TaskCL, _tasks=TasksM)
+REG.define('early_inv(early)',
+    'forall(lambda p: implies(indom(early, p), forall(lambda t: implies(0 <= t < len(at(early, p)), at(early, p)[t].pilot == p))), Str)')
+REG.define('no_dups(xs)', 'forall(lambda i, j: implies(0 <= i < j < len(xs), xs[i] != xs[j]))')
+REG.define('waiting_unbound(pool)', 'forall(lambda t: implies(0 <= t < len(pool), not pool[t].pilot))')
+
+REG.spec('tmgr/scheduler/round_robin.py:RoundRobin.add_pilots',
+    params   = dict(pids=T.List(T.Str)),
+    self     = _rr_self,
+    ghost    = dict(fwd_log=T.List(FwdEvt)),
+    locals   = dict(tasks=TaskCL),
+    calls    = {'self._schedule_tasks': 'tmgr/scheduler/round_robin.py:RoundRobin._schedule_tasks'},
+    requires = ['rr_inv(self._pilots, self._pids)', 'self._idx >= 0', 'waiting_unbound(self._wait_pool)',
+                # the base class has marked them ADDED before (control_cb)
+                'forall(lambda i: implies(0 <= i < len(pids), indom(self._pilots, pids[i]) and at(self._pilots, pids[i]).role == ADDED and '
+                'at(self._pilots, pids[i]).pilot is not None and val(at(self._pilots, pids[i]).pilot).uid == pids[i]))'],
+    modifies = ['self._pids', 'self._idx', 'self._wait_pool', 'self._tasks', 'fwd_log'],
+    raises   = {},
+    ensures  = [
+      ('added-pilots-are-eligible', 'rr_inv(self._pilots, self._pids)'),
+      ('pilot-list-extended', 'len(self._pids) == len(old(self._pids)) + len(pids) and '
+       'forall(lambda i: implies(0 <= i < len(old(self._pids)), self._pids[i] == old(self._pids)[i])) and '
+       'forall(lambda i: implies(0 <= i < len(pids), self._pids[len(old(self._pids)) + i] == pids[i]))'),
+      ('waiting-tasks-start-once-a-pilot-exists',
+       'implies(len(self._pids) > 0, len(self._wait_pool) == 0 and len(fwd_log) == len(old(fwd_log)) + len(old(self._wait_pool)))'),
+      ('still-waiting-without-pilots', 'implies(len(self._pids) == 0, self._wait_pool == old(self._wait_pool) and fwd_log == old(fwd_log))'),
+      ('waiting-unbound', 'waiting_unbound(self._wait_pool)'),
+    ],
+    opts     = dict(merge='scalars'),
+    serves   = ['C12'])
+
+REG.spec('tmgr/scheduler/round_robin.py:RoundRobin.remove_pilots',
+    params   = dict(pids=T.List(T.Str)),
+    self     = dict(_pids=T.List(T.Str)),
+    requires = ['no_dups(self._pids)'],
+    modifies = ['self._pids'],
+    raises   = {'ValueError': 'True'},
+    raises_weak = ['ValueError'],
+    frame_on_raise = False,
+    ensures  = [
+      ('removed-pilots-are-no-longer-eligible',
+       'forall(lambda k, i: implies(0 <= k < len(pids) and 0 <= i < len(self._pids), self._pids[i] != pids[k]))'),
+      ('others-stay-eligible',
+       'forall(lambda i: implies(0 <= i < len(old(self._pids)) and not in_list(pids, old(self._pids)[i]), in_list(self._pids, old(self._pids)[i])))'),
+      ('only-known-pilots-remain',
+       'forall(lambda i: implies(0 <= i < len(self._pids), in_list(old(self._pids), self._pids[i])))'),
+      ('no-dups', 'no_dups(self._pids)'),
+    ],
+    loops    = {'1': ['no_dups(self._pids)',
+                      'forall(lambda k, i: implies(0 <= k < i_pid and 0 <= i < len(self._pids), self._pids[i] != pids[k]))',
+                      'forall(lambda i: implies(0 <= i < len(old(self._pids)) and not exists(lambda k: 0 <= k < i_pid and pids[k] == old(self._pids)[i]), in_list(self._pids, old(self._pids)[i])))',
+                      'forall(lambda i: implies(0 <= i < len(self._pids), in_list(old(self._pids), self._pids[i])))']},
+    serves   = ['C12'])
+
+
+REG.spec('tmgr/scheduler/round_robin.py:RoundRobin._work',
+    params   = dict(tasks=TaskCL),
+    self     = _rr_self,
+    ghost    = dict(fwd_log=T.List(FwdEvt)),
+    locals   = dict(unscheduled=TaskCL, scheduled=TaskCL, failed=TaskCL),
+    calls    = {'self._schedule_tasks': 'tmgr/scheduler/round_robin.py:RoundRobin._schedule_tasks',
+                'self._assign_pilot': 'tmgr/scheduler/base.py:TMGRSchedulingComponent._assign_pilot'},
+    effects  = {'self.advance': _advance},
+    requires = ['rr_inv(self._pilots, self._pids)', 'self._idx >= 0',
+                # TMGRSchedulingComponent.work hands over unbound tasks only
+                'forall(lambda t: implies(0 <= t < len(tasks), not tasks[t].pilot))'],
+    modifies = ['self._idx', 'self._wait_pool', 'self._tasks', 'tasks', 'fwd_log'],
+    raises   = {},
+    ensures  = [
+      ('wait-without-pilots',
+       'implies(len(self._pids) == 0, len(fwd_log) == len(old(fwd_log)) and len(self._wait_pool) == len(old(self._wait_pool)) + len(tasks))'),
+      ('all-forwarded-once-with-pilots',
+       'implies(len(self._pids) > 0, len(fwd_log) == len(old(fwd_log)) + len(tasks) and self._wait_pool == old(self._wait_pool))'),
+    ],
+    loops    = {'1': ['len(failed) == 0', 'len(scheduled) == 0', 'len(unscheduled) == i_task',
+                      'tasks == old(tasks)', 'fwd_log == old(fwd_log)', 'self._tasks == old(self._tasks)',
+                      'forall(lambda t: implies(0 <= t < i_task, unscheduled[t] == tasks[t]))']},
+    opts     = dict(merge='scalars'),
+    serves   = ['C12'])
+
+
+# TMGRSchedulingComponent.work: named tasks go to the named pilot or wait for it
+REG.spec('tmgr/scheduler/base.py:TMGRSchedulingComponent.work',
+    params   = dict(tasks=TaskCL),
+    self     = dict(_pilots=PilotsM, _early=EarlyM, _tasks=TasksM, _pids=T.List(T.Str), _idx=T.Int, _wait_pool=TaskCL),
+    ghost    = dict(fwd_log=T.List(FwdEvt)),
+    locals   = dict(to_schedule=TaskCL),
+    calls    = {'self._work': 'tmgr/scheduler/round_robin.py:RoundRobin._work',
+                'self._assign_pilot': 'tmgr/scheduler/base.py:TMGRSchedulingComponent._assign_pilot'},
+    effects  = {'self.advance': _advance},
+    requires = ['rr_inv(self._pilots, self._pids)', 'self._idx >= 0', 'early_inv(self._early)',
+                'forall(lambda p: implies(indom(self._pilots, p) and at(self._pilots, p).pilot is not None, val(at(self._pilots, p).pilot).uid == p), Str)'],
+    modifies = ['self._early', 'self._tasks', 'self._idx', 'self._wait_pool', 'tasks', 'fwd_log'],
+    raises   = {},
+    ensures  = [
+      ('named-tasks-go-to-the-named-pilot-or-wait-for-it',
+       'forall(lambda t: implies(0 <= t < len(tasks) and bool(old(tasks)[t].pilot), '
+       'tasks[t].pilot == old(tasks)[t].pilot and tasks[t].uid == old(tasks)[t].uid))'),
+      ('early-lists-hold-tasks-naming-that-pilot', 'early_inv(self._early)'),
+      ('early-list-only-grows',
+       'forall(lambda p: implies(indom(old(self._early), p), indom(self._early, p) and len(at(self._early, p)) >= len(at(old(self._early), p))), Str)'),
+    ],
+    loops    = {'1': ['len(tasks) == len(old(tasks))',
+                      'forall(lambda t: implies(i_task <= t < len(tasks), tasks[t] == old(tasks)[t]))',
+                      'forall(lambda t: implies(0 <= t < i_task and bool(old(tasks)[t].pilot), tasks[t].pilot == old(tasks)[t].pilot and tasks[t].uid == old(tasks)[t].uid))',
+                      'forall(lambda t: implies(0 <= t < len(to_schedule), not to_schedule[t].pilot))',
+                      'forall(lambda p: implies(indom(old(self._early), p), indom(self._early, p) and len(at(self._early, p)) >= len(at(old(self._early), p))), Str)',
+                      'early_inv(self._early)',
+                      'self._pids == old(self._pids)', 'self._idx == old(self._idx)', 'self._wait_pool == old(self._wait_pool)']},
+    opts     = dict(merge='scalars'),
+    serves   = ['C12'])
+
+
+# ------------------------------------------------------------------------------
+# TMGRSchedulingComponent.control_cb: add / remove pilots
+#
+CtrlArg = T.Rec('CtrlArg', tmgr=OStr, pilots=T.Opt(PilotL), pids=T.Opt(T.List(T.Str)), uids=T.Opt(T.List(T.Str)))
+REG.optional_keys['CtrlArg'] = {'pilots', 'pids', 'uids'}
+CtrlMsg = T.Rec('CtrlMsg', cmd=OStr, arg=T.Opt(CtrlArg))
+REG.optional_keys['CtrlMsg'] = {'cmd', 'arg'}
+
+REG.spec('tmgr/scheduler/base.py:TMGRSchedulingComponent.control_cb',
+    params   = dict(topic=T.Str, msg=CtrlMsg),
+    self     = dict(_pilots=PilotsM, _early=EarlyM, _tasks=TasksM, _tmgr=T.Str,
+                    _pids=T.List(T.Str), _idx=T.Int, _wait_pool=TaskCL),
+    ghost    = dict(fwd_log=T.List(FwdEvt)),
+    returns  = T.Opt(T.Bool),
+    locals   = dict(to_cancel=T.Map(T.Str, T.List(T.Str)), early_tasks=T.Opt(TaskCL)),
+    calls    = {'self._update_pilot_states': 'tmgr/scheduler/base.py:TMGRSchedulingComponent._update_pilot_states',
+                'self._assign_pilot': 'tmgr/scheduler/base.py:TMGRSchedulingComponent._assign_pilot',
+                'self.add_pilots': 'tmgr/scheduler/round_robin.py:RoundRobin.add_pilots',
+                'self.remove_pilots': 'tmgr/scheduler/round_robin.py:RoundRobin.remove_pilots'},
+    effects  = {'self.advance': _advance},
+    requires = ['rr_inv(self._pilots, self._pids)', 'no_dups(self._pids)', 'self._idx >= 0',
+                'waiting_unbound(self._wait_pool)', 'pentry_ok(self._pilots)', 'early_inv(self._early)',
+                'implies(msg.arg is not None and val(msg.arg).pilots is not None, '
+                'forall(lambda i: implies(0 <= i < len(val(val(msg.arg).pilots)), is_pstate(val(val(msg.arg).pilots)[i].state))) and '
+                'forall(lambda i, j: implies(0 <= i < j < len(val(val(msg.arg).pilots)), val(val(msg.arg).pilots)[i].uid != val(val(msg.arg).pilots)[j].uid)))',
+                # pilots are only listed as eligible while their role is ADDED
+                'forall(lambda p: implies(indom(self._pilots, p) and at(self._pilots, p).role == ADDED, in_list(self._pids, p)), Str)'],
+    modifies = ['self._pilots', 'self._early', 'self._tasks', 'self._pids', 'self._idx', 'self._wait_pool', 'fwd_log'],
+    raises   = {'ValueError': 'True', 'KeyError': 'True', 'TypeError': 'True'},
+    raises_weak = ['ValueError', 'KeyError', 'TypeError'],
+    frame_on_raise = False,
+    ensures  = [
+      ('other-commands-change-nothing',
+       'implies(msg.cmd not in ["add_pilots", "remove_pilots", "cancel_tasks"] or '
+       '(bool(val(msg.arg).tmgr) and val(msg.arg).tmgr != self._tmgr), '
+       'self._pilots == old(self._pilots) and self._pids == old(self._pids) and fwd_log == old(fwd_log))'),
+      ('added-pilots-have-role-added',
+       'implies(msg.cmd == "add_pilots" and not (bool(val(msg.arg).tmgr) and val(msg.arg).tmgr != self._tmgr), '
+       'forall(lambda i: implies(0 <= i < len(val(val(msg.arg).pilots)), '
+       'indom(self._pilots, val(val(msg.arg).pilots)[i].uid) and at(self._pilots, val(val(msg.arg).pilots)[i].uid).role == ADDED)))'),
+      # C12: tasks that waited for a named pilot are forwarded when it is added
+      # and are not kept for a second forwarding
+      ('early-bound-tasks-are-not-kept-after-forwarding',
+       'implies(msg.cmd == "add_pilots" and not (bool(val(msg.arg).tmgr) and val(msg.arg).tmgr != self._tmgr), '
+       'forall(lambda i: implies(0 <= i < len(val(val(msg.arg).pilots)), '
+       'not indom(self._early, val(val(msg.arg).pilots)[i].uid) or len(at(self._early, val(val(msg.arg).pilots)[i].uid)) == 0)))'),
+      ('removed-pilots-lose-the-role-and-eligibility',
+       'implies(msg.cmd == "remove_pilots" and not (bool(val(msg.arg).tmgr) and val(msg.arg).tmgr != self._tmgr), '
+       'forall(lambda k: implies(0 <= k < len(val(val(msg.arg).pids)), '
+       'at(self._pilots, val(val(msg.arg).pids)[k]).role == REMOVED and not in_list(self._pids, val(val(msg.arg).pids)[k]))))'),
+    ],
+    loops = {
+      '1': ['pentry_ok(self._pilots)', 'rr_inv(self._pilots, self._pids)',
+            'self._early == old(self._early)', 'fwd_log == old(fwd_log)',
+            'forall(lambda i: implies(0 <= i < i_pilot, indom(self._pilots, pilots[i].uid) and at(self._pilots, pilots[i].uid).role == ADDED and '
+            'at(self._pilots, pilots[i].uid).pilot is not None and val(at(self._pilots, pilots[i].uid).pilot).uid == pilots[i].uid))',
+            'forall(lambda p: implies(indom(self._pilots, p) and at(self._pilots, p).role == ADDED, '
+            'in_list(self._pids, p) or exists(lambda i: 0 <= i < i_pilot and pilots[i].uid == p)), Str)',
+            'forall(lambda i: implies(0 <= i < i_pilot, not in_list(self._pids, pilots[i].uid)))'],
+      '2': ['pentry_ok(self._pilots)', 'rr_inv(self._pilots, self._pids)', 'early_inv(self._early)',
+            'forall(lambda i: implies(0 <= i < len(pilots), indom(self._pilots, pilots[i].uid) and at(self._pilots, pilots[i].uid).role == ADDED and '
+            'at(self._pilots, pilots[i].uid).pilot is not None and val(at(self._pilots, pilots[i].uid).pilot).uid == pilots[i].uid))',
+            'forall(lambda i: implies(0 <= i < i_pilot, not indom(self._early, pilots[i].uid) or len(at(self._early, pilots[i].uid)) == 0))',
+            'forall(lambda i: implies(0 <= i < len(pilots), not in_list(self._pids, pilots[i].uid)))'],
+      '2.1': ['pid == pilot.uid', 'is_some(early_tasks)',
+              'forall(lambda t: implies(0 <= t < len(val(early_tasks)), val(early_tasks)[t].pilot == pid))'],
+      '3': ['fwd_log == old(fwd_log)', 'self._pids == old(self._pids)',
+            'forall(lambda k: implies(0 <= k < i_pid, indom(self._pilots, pids[k]) and at(self._pilots, pids[k]).role == REMOVED))',
+            'forall(lambda p: implies(indom(self._pilots, p) and not exists(lambda k: 0 <= k < i_pid and pids[k] == p), '
+            'at(self._pilots, p) == at(old(self._pilots), p)), Str)',
+            'forall(lambda p: indom(self._pilots, p) == indom(old(self._pilots), p), Str)'],
+    },
+    opts     = dict(merge='scalars'),
+    serves   = ['C12'])
